@@ -38,7 +38,7 @@ type TierOpt struct {
 	Horizon  int64
 	Timeout  int // solver timeout ms
 	Solver   string
-	NoCross  bool // skip the cross-solver diff in the thorough tier (too slow on the other back ends)
+	Cross    bool // thorough tier: re-run the harness on the other solvers and diff the verdicts
 }
 
 // Run describes one harness of a property.
@@ -270,9 +270,9 @@ func checkMain(args []string) int {
 			engineErrors = append(engineErrors, r.Harness+": path budget exhausted (bound not covered)")
 		}
 		// thorough: diff the verdicts of a second and third solver
-		if *tier == "thorough" && !opt.Race && opt.Sched == 0 && !opt.NoCross {
+		if *tier == "thorough" && !opt.Race && opt.Sched == 0 && opt.Cross {
 			for _, sv := range []string{"z3", "z3-new", "cvc5"} {
-				if sv == o.SolverName {
+				if sv == o.SolverName || (o.SolverName == "portfolio" && sv != "cvc5") {
 					continue
 				}
 				o2 := o
